@@ -306,7 +306,8 @@ Ltac json_step val :=
   cbv beta iota zeta;
   rewrite ?(hex_shr4 (bz b)) by lia; rewrite ?hex_land; cbv beta iota zeta; rewrite ?hexn2;
   (destruct (Nat.eq_dec a_ i_) as [Eai|Eai];
-   [ subst a_; replace (Z.of_nat i_ <? Z.of_nat i_) with false by lia; rewrite ?jslice_nil
+   [ subst a_; replace (Z.of_nat i_ <? Z.of_nat i_) with false by lia;
+     rewrite ?(str_slice_pos i_ i_ val) by lia; fold (jslice val i_ i_); rewrite ?jslice_nil
    | replace (Z.of_nat a_ <? Z.of_nat i_) with true by lia; rewrite ?(str_slice_pos a_ i_ val) by lia; fold (jslice val a_ i_) ]);
   cbv beta iota zeta; zbcalc; rewrite ?zb_bz;
   repeat (gen_split; gen_inj; cbn [andb orb negb] in *; try discriminate; try lia);
@@ -336,3 +337,31 @@ Proof.
       repeat (gen_split; gen_inj); rewrite <- ?Hb;
       [ reflexivity | assert (a' = length val) by lia; subst a'; rewrite skipn_all, app_nil_r; reflexivity ] ].
   Qed.
+
+(* ---- the callers: appendQuotedString and pcAppendStringKey (helpers they may call are auxiliary
+   definitions of the generated file and stay folded: a fast path through one of them leaves a case the proof cannot close) ---- *)
+Lemma gen_quoted_string : forall isprint gl jm buf str,
+  Escapes.quoted_string isprint gl Tables.t_hex Tables.t_safeSet jm buf str =
+  Some (buf ++ if jm then json_quote str else quote_go isprint str).
+Proof.
+  intros isprint gl jm buf str.
+  first
+    [ reflexivity
+    | unfold Escapes.quoted_string, json_quote; cbv zeta;
+      rewrite ?gen_json_escape, ?gen_quote_with; cbv beta iota zeta; zbcalc;
+      repeat (gen_split; gen_inj; rewrite ?gen_json_escape, ?gen_quote_with in *; gen_inj; try discriminate);
+      rewrite <- ?app_assoc; cbn [app]; reflexivity ].
+Qed.
+
+Lemma gen_string_key : forall jm buf str,
+  Escapes.string_key Tables.t_hex Tables.t_safeSet jm buf str =
+  Some (buf ++ if jm then json_quote str else str).
+Proof.
+  intros jm buf str.
+  first
+    [ reflexivity
+    | unfold Escapes.string_key, json_quote; cbv zeta;
+      rewrite ?gen_json_escape; cbv beta iota zeta; zbcalc;
+      repeat (gen_split; gen_inj; rewrite ?gen_json_escape in *; gen_inj; try discriminate);
+      rewrite <- ?app_assoc; cbn [app]; reflexivity ].
+Qed.
